@@ -48,6 +48,7 @@ type c04Spec struct {
 	BlockAt         int       `json:"block_at_ms,omitempty"`  // sdk mode: a client notification sent at this instant whose server handler blocks ...
 	BlockMs         int       `json:"block_ms,omitempty"`     // ... for this long (0: none): cancellation notices must not queue behind it
 	BodyLatencyMs   int       `json:"body_latency_ms,omitempty"` // http-json: the JSON body of every tools/call response is this long in transit after its headers (a cancel or deadline can fall into that window)
+	NestAtOnce      bool      `json:"nest_at_once,omitempty"`    // s2c calls: the tool handler returns the moment its cancelled nested call has returned (the cancellation notice is sent asynchronously and must still reach the client)
 	DrainCancel     int       `json:"drain_cancel,omitempty"` // sdk mode, persistent transports: at the end this many parked calls are cancelled while the callee is already draining under a graceful Close
 }
 
@@ -135,7 +136,10 @@ func genC04(r *vh.Rand) c04Spec {
 			}
 		}
 	}
-	if s.Transport == "http" && r.Bool() {
+	if hasS2C && r.Chance(1, 3) {
+		s.NestAtOnce = true
+	}
+	if s.Transport == "http" && r.Bool() && !s.NestAtOnce {
 		s.NoStandaloneSSE = true // server->client traffic can then only travel on request streams
 	}
 	if s.Mode == "sdk" && (s.Transport == "mem" || s.Transport == "pipe") && r.Chance(1, 3) {
@@ -262,8 +266,10 @@ func runC04SDK(c *vh.Case, spec c04Spec) {
 		}
 		log.Add("call-return", "n", a.Nonce, "outcome", c04Classify(text, err))
 		// The cancellation notice is sent asynchronously and, on streamable HTTP, travels on this
-		// request's stream: keep the outer request open for a moment instead of racing it.
-		time.Sleep(ms(1))
+		// request's stream: keep the outer request open for a moment, unless the case is about exactly that race.
+		if !spec.NestAtOnce {
+			time.Sleep(ms(1))
+		}
 		return &mcp.CallToolResult{Content: []mcp.Content{&mcp.TextContent{Text: "outer-done"}}}, nil
 	})
 	server.AddTool(&mcp.Tool{Name: "ask", InputSchema: json.RawMessage(`{"type":"object"}`)}, func(ctx context.Context, req *mcp.CallToolRequest) (*mcp.CallToolResult, error) {
@@ -689,6 +695,9 @@ func decideC04(c *vh.Case, spec c04Spec) {
 				if hasStart && hs.Seq < cancelSeq[n] && (!cs.ByDeadline || hs.T < ct) {
 					if !hasDone {
 						key := "handler-not-cancelled"
+						if spec.NestAtOnce && cs.Dir == "s2c" {
+							key = "handler-not-cancelled/nested-caller-returned"
+						}
 						if spec.Transport == "http-stateless" && !(spec.Version == "" && spec.Propagate) {
 							// every POST is its own session there: the cancellation notice reaches another one.
 							// Only 2026-07-28 requests with PropagateRequestCancellation are tied to the HTTP request.
